@@ -193,9 +193,9 @@ var reFail = regexp.MustCompile(`(?m)^VERIF-FAIL (.+)$`)
 var reReach = regexp.MustCompile(`(?m)^VERIF-REACH (.+)$`)
 
 func runVectorFile(bin, dir, vecPath string) replayOutcome {
-	ctx, cancel := context.WithTimeout(context.Background(), 60*time.Second)
+	ctx, cancel := context.WithTimeout(context.Background(), 30*time.Second)
 	defer cancel()
-	cmd := exec.CommandContext(ctx, bin, "-test.run", "^TestVerifReplay$", "-test.v", "-test.timeout", "50s")
+	cmd := exec.CommandContext(ctx, bin, "-test.run", "^TestVerifReplay$", "-test.v", "-test.timeout", "20s")
 	cmd.Dir = dir
 	cmd.Env = append(goEnv(), "VERIF_VECTOR="+vecPath)
 	var buf bytes.Buffer
@@ -213,10 +213,10 @@ func runVectorFile(bin, dir, vecPath string) replayOutcome {
 	switch {
 	case len(ro.Labels) > 0:
 		ro.Status = "fail"
-	case strings.Contains(out, "VERIF-PANIC") || strings.Contains(out, "panic:") || strings.Contains(out, "fatal error:"):
-		ro.Status = "panic"
 	case ctx.Err() != nil || strings.Contains(out, "test timed out"):
 		ro.Status = "timeout"
+	case strings.Contains(out, "VERIF-PANIC") || strings.Contains(out, "panic:") || strings.Contains(out, "fatal error:"):
+		ro.Status = "panic"
 	case strings.Contains(out, "VERIF-PRUNED"):
 		ro.Status = "pruned"
 	case strings.Contains(out, "VERIF-DONE"):
@@ -433,6 +433,24 @@ func cmdCheck(args []string) int {
 		}
 		for _, l := range interp.SortedKeys(rr.Panics) {
 			cexs = append(cexs, cex{"no-panic: " + l, rr.Panics[l], true})
+		}
+		// a path that exhausts the step budget is a candidate non-termination:
+		// it is a violation only if the native run does not terminate either
+		for bi, bv := range rr.Budget {
+			if native == nil || bv == nil {
+				break
+			}
+			ro := native.run(run.Pkg, bv)
+			if ro.Status == "timeout" {
+				path := filepath.Join(verifDir, "evidence", "replay", fmt.Sprintf("%s-%s-budget-%d.json", id, run.Entry, bi))
+				data, _ := json.MarshalIndent(bv, "", " ")
+				os.WriteFile(path, data, 0o644)
+				msg := fmt.Sprintf("%s: terminates: handling does not end within the step budget and the native run does not terminate within 20s, input=[%s]", run.Entry, fmtVec(bv))
+				he.Violations = append(he.Violations, msg)
+				violations = append(violations, msg)
+				fmt.Printf("VIOLATION property=%s replay=%s\n  %s\n", id, path, msg)
+				break
+			}
 		}
 		for i, c := range cexs {
 			if c.vec == nil {
